@@ -30,6 +30,7 @@ def encode_by_name(name, data):
 
 class C09(Prop):
     id = 'C09'
+    extracted = True      # order of tests and effects of saveAsTextFile regenerated from the current source (harness/extract_m.py, Extracted/EquivC09.lean)
     quick_cases = 700
     thorough_cases = 8000
     quick_budget_s = 50
